@@ -70,5 +70,44 @@ def ffi_part(ob, facts, failures, coverage, tier, seed):
             "where the model is undecided both outcomes are tolerated and the result is covered by the no-panic oracle only",
             "ffi engine: the step that raised InvalidInput is recognised by the literal error texts regenerated from lib.rs (facts ffiErrorTexts) and the hex crate's three error texts"]
 
+def parsers_part(ob, facts, failures, coverage, tier, seed):
+    """the parsers of key-package events, welcome rumors, imeta / h tags and the group-data extension under the codec engine's
+    hostile stream (incl. multi-byte characters across every offset the validators slice at): here only the first sentence of
+    C06 is judged — the call returns instead of panicking; what is accepted or refused is C15's business"""
+    from . import codeceng as K
+    import os
+    if not os.path.exists(C.DRV):
+        return []
+    cases = K.load_corpus("C15") + K.generate(seed, tier, K.get_pool())
+    K.run(cases)
+    panics = [c for c in cases if c["impl"] == "panic" and not K.same(c)]
+    tolerated = sum(1 for c in cases if c["impl"] == "panic" and K.same(c))
+    for c in panics[:5]:
+        failures.append({"kind": "oracle", "signature": "panic:" + c["op"].split()[0],
+                         "what": f"{c['id']} [{c['cls']}] `{c['op'][:200]}`: the parser PANICKED instead of returning a result",
+                         "replay_body": K.case_text(c, "the call panicked"), "case": c})
+    ob.add("oracle:parsers:no-panic", not panics, f"panics={len(panics)}")
+    nonascii = sum(1 for c in cases if any(ord(ch) > 127 for ch in _decoded(c["op"])))
+    coverage["parsers"] = {"evaluations": len(cases), "distinct_nontrivial": len({c["op"] for c in cases if not c["cls"].endswith(":valid")}),
+                           "rule": "the codec engine's stream (C15) — every mutation class of key-package events, welcome rumors, imeta and h tags, extension bytes — "
+                                   "run under catch_unwind; non-trivial = a mutated case, distinct by op line; only panics are judged here",
+                           "panics": len(panics), "debug_assert_refusals_tolerated": tolerated, "cases_with_non_ascii_values": nonascii,
+                           "samples": [c["op"][:200] for c in cases if any(ord(ch) > 127 for ch in _decoded(c["op"]))][:5]}
+    return ["parsers part: absence of panics is a runtime observation on this run's stream, not a theorem; the accept / refuse decisions of the same parsers are theorems of C15"]
+
+def _decoded(op):
+    """the op line with its hex-encoded tag values decoded (to count non-ASCII cases)"""
+    import re
+    out = []
+    for h in re.findall(r"[:,=]((?:[0-9a-f]{2})+)(?=[;, ]|$)", op):
+        try:
+            out.append(bytes.fromhex(h).decode("utf-8"))
+        except Exception:
+            pass
+    return "".join(out)
+
+def both_parts(ob, facts, failures, coverage, tier, seed):
+    return ffi_part(ob, facts, failures, coverage, tier, seed) + parsers_part(ob, facts, failures, coverage, tier, seed)
+
 def run(tier, seed, t0, H):
-    return check_world.run(PROP, tier, seed, t0, H, second=check_wrap.extra, second_engine=ffi_part)
+    return check_world.run(PROP, tier, seed, t0, H, second=check_wrap.extra, second_engine=both_parts)
